@@ -283,7 +283,7 @@ func (w *World) observeAOL(obs *TxObs) error {
 					continue
 				}
 				off := uint64(len(t.Records))
-				if w.On("C01") {
+				if w.On("C01") && obs.Step.Group == 0 { // a group proposal does not return the inner responses
 					if i >= len(resps) {
 						return vio("C01", "add-record accepted but no response was returned")
 					}
@@ -321,7 +321,7 @@ func (w *World) observeAOL(obs *TxObs) error {
 	}
 	if w.On("C01") {
 		// completeness: a listed writer's single-message append that passed the ante is acknowledged
-		if len(obs.Msgs) == 1 && obs.Step.Exec == 0 && obs.AntePassed && !obs.OK() {
+		if len(obs.Msgs) == 1 && !obs.Step.Wrapped() && obs.AntePassed && !obs.OK() {
 			if x, ok := obs.Msgs[0].(*aoltypes.MsgAddRecordRequest); ok {
 				o, ok1 := addrBytes(x.OwnerAddress)
 				wr, ok2 := addrBytes(x.WriterAddress)
